@@ -9,6 +9,7 @@ Inductive cmd :=
 | CSwap (d : Z) | CDup (d : Z) | CSpill (d : Z) | CRestore (op : Z) | CRelease (live : list Z)
 | CReorder (dry : bool) (ops : list Z) | CPop (n : Z) | CPush (x : Z) | CSwapOp (x : Z) | CDupOp (x : Z)
 | CEmit (invoke : bool) (ops live : list Z) | CPopMany (xs : list Z)
+| CClean (layout inputs : list Z) (bound promise : option Z)
 | CInst (kind code : Z) (ops outs live : list Z) (next_term skip_pops : bool).
 
 Record world := mkW { w_a : list ainstr; w_m : list Z; w_s : sp; w_d : spilled; w_costs : list Z }.
@@ -40,6 +41,9 @@ Definition run_cmd (classes : list (Z * Z)) (c : cmd) (w : world) : res world :=
   | CEmit inv ops live => match emit_inputs inv ops live a m s d with Ok (a', m', s', d') => Ok (mkW a' m' s' d' costs) | Err e => Err e end
   | CInst kind code ops outs live nt sk =>
     match gen_inst (equiv_of classes) kind code ops outs live nt sk a m s d with Ok (a', m', s', d') => Ok (mkW a' m' s' d' costs) | Err e => Err e end
+  | CClean layout inputs bound promise =>
+    match clean_from_cfg_in layout inputs bound promise a m s with
+    | Ok (a', m', s', b') => Ok (mkW a' m' s' d (costs ++ [match b' with Some b => b | None => -1 end])) | Err e => Err e end
   | CPopMany xs => match popmany xs a m s with Ok (a', m', s') => Ok (mkW a' m' s' d costs) | Err e => Err e end
   | CDupOp x => match spec_get_depth m x with
                 | None => Err AssertFail
@@ -61,7 +65,9 @@ Definition observe (classes : list (Z * Z)) (cs : list cmd) (m0 : list Z) (next 
                  (* executing the emitted assembly from the initial stack gives the final stack map *)
                  [match run (w_a w) (view m0, fun _ => 0) with
                   | Some (s', _) => (* up to the DFG equivalence used by the "virtual swap" of _stack_reorder *)
-                    if list_eq_dec Z.eq_dec (map (rep_of classes) s') (map (rep_of classes) (view (w_m w))) then 1 else 0
+                    (* ... and up to retained dead slots, whose physical content is arbitrary *)
+                    if (length s' =? length (w_m w))%nat &&
+                       forallb (fun p => is_dead (snd p) || (rep_of classes (fst p) =? rep_of classes (snd p))) (combine s' (view (w_m w))) then 1 else 0
                   | None => -1 end;
                   if forallb depth_ok (w_a w) then 1 else 0]
   | (n, Err e) => [0; n; err_code e]
